@@ -329,7 +329,13 @@ void Var::operator=(const Var& v)
 	}
 	
 	if(!isPod())
+	{
+		Var tmp(v); // v can be an element or property of this var, destroyed by free()
 		free();
+		memcpy(this, &tmp, sizeof(tmp));
+		tmp._type = NONE;
+		return;
+	}
 	memcpy(this, &v, sizeof(v));
 	switch(_type)
 	{
